@@ -41,6 +41,8 @@
     `genShamirPolynomial`, `genShamirSecretShare`, `aggregateShares`   Thresholdizer.*
     `evalPolyScalarInto`, `genShamirSecretShareInto`   the same with the receiver's previous content
                                    as an explicit argument (`p2.Copy(p1[last])` kept as a step)
+    `genAdditiveShareSt`, `runCalls`   GenAdditiveShare with the Combiner's scratch buffer explicit, and a
+                                   sequence of calls on one Combiner (driver op `addshare_seq`)
     `partyAdditiveShare`, `thresholdRun`   the reconstruction run of `testThreshold` (driver op `run`)
   Core Lean only.
 -/
@@ -272,6 +274,59 @@ def genAdditiveShare (cmb : Combiner) (actives : List Nat) (ownPoint : Nat) (own
     | .err => .err
     | .panic => .panic
     | .ok prod => .ok ⟨cmb.ring.nq, scaleRows ms ownShare.rows prod⟩
+
+/-! ## The Combiner's scratch buffer made explicit (call history)
+
+`GenAdditiveShare` computes the product in the Combiner's scratch slice `cmb.tmp2`, which survives
+from one call to the next (the `Combiner` is passed by value but its slices are shared).  The
+step that erases the previous call's content is `copy(prod, cmb.one)`.  `genAdditiveShareSt` keeps
+that step and returns the scratch content after the call; `runCalls` threads it through a sequence
+of calls on one Combiner.  `Proofs/ShamirHist.lean` proves that the results do not depend on the
+scratch content (hence on the history of calls): `runCalls` is the list of the results of the
+pure `genAdditiveShare`.  (Seeded regression C15-r5m2 skipped the copy and the loop when a memoised
+group — the caller's own slice — compared equal to the current one.) -/
+
+/-- `lagrangeProd` together with the content of the scratch buffer when the loop stops. -/
+def lagrangeProdBuf (ms : List Nat) (table : List (Nat × List Nat)) (ownPoint : Nat) :
+    List Nat → List Nat → Outcome (List Nat) × List Nat
+  | [], prod => (.ok prod, prod)
+  | active :: rest, prod =>
+    if active ≠ ownPoint then
+      if pointsCollide ms ownPoint active then (.err, prod)
+      else
+        match table.lookup active with
+        | none => (.panic, prod)
+        | some c => lagrangeProdBuf ms table ownPoint rest (mulScalars ms prod c)
+    else lagrangeProdBuf ms table ownPoint rest prod
+
+/-- `GenAdditiveShare` with `tmp2` = content of the Combiner's scratch buffer on entry; returns the
+outcome and the scratch content on exit. -/
+def genAdditiveShareSt (cmb : Combiner) (tmp2 : List Nat) (actives : List Nat) (ownPoint : Nat)
+    (ownShare : QP) : Outcome QP × List Nat :=
+  if (actives.length : Int) < cmb.threshold then (.err, tmp2)
+  else if cmb.threshold < 0 then (.panic, tmp2)
+  else
+    let ms := cmb.ring.ms
+    let r := lagrangeProdBuf ms cmb.table ownPoint (actives.take cmb.threshold.toNat)
+      (copyWords tmp2 (ms.map fun q => 1 % q))
+    (match r.1 with
+     | .err => .err
+     | .panic => .panic
+     | .ok prod => .ok ⟨cmb.ring.nq, scaleRows ms ownShare.rows prod⟩, r.2)
+
+/-- one call of `GenAdditiveShare`. -/
+structure Call where
+  actives : List Nat
+  ownPoint : Nat
+  share : QP
+  deriving Repr, DecidableEq
+
+/-- a sequence of calls on ONE Combiner, the scratch buffer threaded from call to call. -/
+def runCalls (cmb : Combiner) : List Nat → List Call → List (Outcome QP)
+  | _, [] => []
+  | tmp2, c :: rest =>
+    let r := genAdditiveShareSt cmb tmp2 c.actives c.ownPoint c.share
+    r.1 :: runCalls cmb r.2 rest
 
 /-! ## The protocol run of the property (what the test `testThreshold` does) -/
 
